@@ -316,7 +316,9 @@ Section LogRules.
     let t := p_term (nodes (el s) c) in
     own_term_leader s c = true /\ (k <= length (l_log (ln s c)))%nat /\ (l_commit (ln s c) < k)%nat /\
     term_at (l_log (ln s c)) k = t /\ quorum inc out (supporters s c k) = true /\
-    s' = add_cpt (set_ln s c (mkLN (l_log (ln s c)) (l_dlog (ln s c)) (l_imgs (ln s c)) k (l_acks (ln s c)))) t k.
+    s' = add_cpt (let s1 := set_ln s c (mkLN (l_log (ln s c)) (l_dlog (ln s c)) (l_imgs (ln s c)) k (l_acks (ln s c))) in
+                  if is_prefix (firstn k (l_log (ln s c))) (l_dlog (ln s c)) && (acked s c t <? k)%nat
+                  then set_acked s1 c t k else s1) t k.
   Proof.
     cbn [Log.lrule]. intros H. cbv zeta in H.
     match type of H with (if ?g then _ else _) = _ => destruct g eqn:Hg; [|discriminate] end.
@@ -354,11 +356,14 @@ Section LogRules.
 
   Lemma llogfsync_inv n s s' : lrule (LLogFsync n) s = Some s' ->
     exists img rest, l_imgs (ln s n) = img :: rest /\ p_up (nodes (el s) n) = true /\
+    (forall e, In e img -> eterm e <= p_dterm (nodes (el s) n)) /\
     s' = set_ln s n (mkLN (l_log (ln s n)) img rest (l_commit (ln s n)) (l_acks (ln s n))).
   Proof.
     cbn [Log.lrule]. intros H. cbv zeta in H. destruct (l_imgs (ln s n)) as [|img rest]; [discriminate|].
-    destruct (p_up (nodes (el s) n)); [|discriminate].
-    inversion H; subst; clear H. eauto.
+    match type of H with (if ?g then _ else _) = _ => destruct g eqn:Hg; [|discriminate] end.
+    apply andb_prop in Hg. destruct Hg as [H1 H2].
+    inversion H; subst; clear H. exists img, rest. repeat split; auto.
+    intros e He. rewrite forallb_forall in H2. apply N.leb_le. apply H2. exact He.
   Qed.
 
   (* Stage 0: projection onto the election layer *)
@@ -371,10 +376,10 @@ Section LogRules.
     - left. apply ladopt_inv in H. cbv zeta in H. destruct H as (_ & _ & _ & _ & _ & _ & ->). reflexivity.
     - left. apply lmkack_inv in H. cbv zeta in H. destruct H as (_ & _ & _ & _ & ->). reflexivity.
     - left. apply lrelack_inv in H. destruct H as (_ & _ & _ & ->). destruct (acked s q t <? i)%nat; reflexivity.
-    - left. apply lcommitl_inv in H. cbv zeta in H. destruct H as (_ & _ & _ & _ & _ & ->). reflexivity.
+    - left. apply lcommitl_inv in H. cbv zeta in H. destruct H as (_ & _ & _ & _ & _ & ->). destruct (is_prefix _ _ && _)%bool; reflexivity.
     - left. apply lcommitf_inv in H. destruct H as (_ & _ & _ & _ & ->). reflexivity.
     - left. apply llogimage_inv in H. destruct H as (_ & ->). reflexivity.
-    - left. apply llogfsync_inv in H. destruct H as (img & rest & _ & _ & ->). reflexivity.
+    - left. apply llogfsync_inv in H. destruct H as (img & rest & _ & _ & _ & ->). reflexivity.
   Qed.
 
   Theorem lreachable_el s : lreachable inc out s -> reachable inc out (el s).
@@ -500,10 +505,10 @@ Section LogInv.
     - apply ladopt_inv in H. cbv zeta in H. destruct H as (_ & _ & _ & _ & _ & _ & ->). apply grows_refl.
     - apply lmkack_inv in H. cbv zeta in H. destruct H as (_ & _ & _ & _ & ->). apply grows_refl.
     - apply lrelack_inv in H. destruct H as (_ & _ & _ & ->). destruct (acked s q t <? i)%nat; apply grows_refl.
-    - apply lcommitl_inv in H. cbv zeta in H. destruct H as (_ & _ & _ & _ & _ & ->). apply grows_refl.
+    - apply lcommitl_inv in H. cbv zeta in H. destruct H as (_ & _ & _ & _ & _ & ->). destruct (is_prefix _ _ && _)%bool; apply grows_refl.
     - apply lcommitf_inv in H. destruct H as (_ & _ & _ & _ & ->). apply grows_refl.
     - apply llogimage_inv in H. destruct H as (_ & ->). apply grows_refl.
-    - apply llogfsync_inv in H. destruct H as (img & rest & _ & _ & ->). apply grows_refl.
+    - apply llogfsync_inv in H. destruct H as (img & rest & _ & _ & _ & ->). apply grows_refl.
   Qed.
 
   (* frame lemmas *)
@@ -674,8 +679,10 @@ Section LogInv.
     - (* leader commit *)
       apply lcommitl_inv in H. cbv zeta in H. destruct H as (_ & Hk & _ & _ & _ & ->).
       apply LInv_add_cpt.
-      apply LInv_set_ln; cbn [l_log l_dlog l_imgs l_commit]; try reflexivity; try exact HI;
-        [apply (li_Dlog s HI)|apply (li_Ddlog s HI)|apply (li_Dimg s HI)|exact Hk].
+      assert (HI1 : LInv (set_ln s c (mkLN (l_log (ln s c)) (l_dlog (ln s c)) (l_imgs (ln s c)) k (l_acks (ln s c))))).
+      { apply LInv_set_ln; cbn [l_log l_dlog l_imgs l_commit]; try reflexivity; try exact HI;
+          [apply (li_Dlog s HI)|apply (li_Ddlog s HI)|apply (li_Dimg s HI)|exact Hk]. }
+      cbv zeta. destruct (is_prefix _ _ && _)%bool; [apply LInv_set_acked|]; exact HI1.
     - (* follower commit *)
       apply lcommitf_inv in H. destruct H as (_ & Hk & _ & _ & ->).
       apply LInv_set_ln; cbn [l_log l_dlog l_imgs l_commit]; try reflexivity; try exact HI;
@@ -687,7 +694,7 @@ Section LogInv.
       intros img Hin. apply in_app_iff in Hin. destruct Hin as [Hin|[<-|[]]];
         [eapply (li_Dimg s HI); exact Hin|apply (li_Dlog s HI)].
     - (* log fsync *)
-      apply llogfsync_inv in H. destruct H as (img & rest & Ei & _ & ->).
+      apply llogfsync_inv in H. destruct H as (img & rest & Ei & _ & _ & ->).
       apply LInv_set_ln; cbn [l_log l_dlog l_imgs l_commit]; try reflexivity; try exact HI;
         [apply (li_Dlog s HI)| | |apply (li_G s HI)].
       + apply (li_Dimg s HI n). rewrite Ei. left. reflexivity.
@@ -788,13 +795,14 @@ Section C05.
       destruct (N.eqb_spec n q) as [->|Hne]; cbn; split; try lia; reflexivity.
     - apply lrelack_inv in H. destruct H as (_ & _ & _ & ->).
       destruct (acked s q t <? i)%nat; cbn; split; try lia; reflexivity.
-    - apply lcommitl_inv in H. cbv zeta in H. destruct H as (_ & _ & Hk & _ & _ & ->). cbn [add_cpt set_ln ln].
-      destruct (N.eqb_spec n c) as [->|Hne]; cbn; split; try lia; reflexivity.
+    - apply lcommitl_inv in H. cbv zeta in H. destruct H as (_ & _ & Hk & _ & _ & ->).
+      destruct (is_prefix _ _ && _)%bool; cbn [add_cpt set_acked set_ln ln];
+        (destruct (N.eqb_spec n c) as [->|Hne]; cbn; split; try lia; reflexivity).
     - apply lcommitf_inv in H. destruct H as (_ & _ & Hk & _ & ->). cbn [set_ln ln].
       destruct (N.eqb_spec n n0) as [->|Hne]; cbn; split; try lia; reflexivity.
     - apply llogimage_inv in H. destruct H as (_ & ->). cbn [set_ln ln].
       destruct (N.eqb_spec n n0) as [->|Hne]; cbn; split; try lia; reflexivity.
-    - apply llogfsync_inv in H. destruct H as (img & rest & _ & _ & ->). cbn [set_ln ln].
+    - apply llogfsync_inv in H. destruct H as (img & rest & _ & _ & _ & ->). cbn [set_ln ln].
       destruct (N.eqb_spec n n0) as [->|Hne]; cbn; split; try lia; reflexivity.
   Qed.
 
